@@ -120,6 +120,52 @@ var c02Law = Check[c02LawCase]{
 	},
 }
 
+// ---- (1b) the same law when the reader fails with a non-EOF error ------------------------
+
+type c02FailCase struct {
+	S        StreamM
+	Cut      int  // the reader delivers X[:Cut] and then fails
+	WithData bool // the error comes together with the last data
+	Chunk    int
+}
+
+func c02FailOracle(c c02FailCase) error {
+	x := c.S.Bytes()
+	cut := c.Cut % (len(x) + 1)
+	r := &cutReader{data: x, c: cut, err: errInjected, withData: c.WithData, chunk: c.Chunk}
+	var w bytes.Buffer
+	snap, suffix, err := stack.ScanSnapshot(r, &w, plainOpts())
+	s := append(append([]byte{}, suffix...), x[r.pos:cut]...)
+	hits, e := conservation(x[:cut], w.Bytes(), s, snap, err)
+	if hits > 0 {
+		statsFor("C02").excluded(int64(hits))
+	}
+	if e != nil {
+		return fmt.Errorf("reader fails after %d of %d bytes (with data: %v): %v", cut, len(x), c.WithData, e)
+	}
+	return nil
+}
+
+var c02Fail = Check[c02FailCase]{
+	Prop: "C02", Name: "readfail",
+	Gen: func(t *rapid.T) c02FailCase {
+		s := genStream(t, streamOptsDefault())
+		return c02FailCase{S: s, Cut: rapid.IntRange(0, len(s.Bytes())).Draw(t, "cut"), WithData: rapid.Bool().Draw(t, "withData"),
+			Chunk: rapid.SampledFrom([]int{0, 0, 1, 7, 100}).Draw(t, "chunk")}
+	},
+	Oracle: c02FailOracle,
+	Obs: func(c c02FailCase) Obs {
+		x := c.S.Bytes()
+		cut := c.Cut % (len(x) + 1)
+		mid := cut > 0 && cut < len(x) && x[cut-1] != '\n'
+		cl := []string{"reader_failure"}
+		if mid {
+			cl = append(cl, "failure_inside_a_line")
+		}
+		return Obs{Nontrivial: mid, Digest: digestBytes(x, []byte(fmt.Sprint(cut, c.WithData, c.Chunk))), Classes: cl}
+	},
+}
+
 // ---- (2) ground truth over the whole resume history ------------------------------------
 
 type c02StreamCase struct {
@@ -333,6 +379,7 @@ func init() {
 	register(c02Law.key(), c02Law.Oracle)
 	register(c02Stream.key(), c02Stream.Oracle)
 	register(c02PP.key(), c02PP.Oracle)
+	register(c02Fail.key(), c02Fail.Oracle)
 }
 
 func TestC02(t *testing.T) {
@@ -342,6 +389,9 @@ func TestC02(t *testing.T) {
 	b := c02Law
 	b.Checks = n(2500, 50000)
 	b.Run(t)
+	d := c02Fail
+	d.Checks = n(1500, 30000)
+	d.Run(t)
 	c := c02PP
 	c.Checks = n(60, 1500)
 	c.Run(t)
